@@ -235,6 +235,44 @@ func combos() []combo {
 			model: func(subs [][]strategy.Action, cl []float64) []strategy.Action { return modelStopLoss(subs[0], cl, pct) },
 			inv:   func(out []strategy.Action, cl []float64) string { return stopLossInvariant(out, cl, pct) }})
 	}
+	// the decorators are plain structs with exported, documented fields: assembled as composite literals, and with the
+	// percentage assigned after construction (a parameter sweep on one object), they follow the same rules
+	cs = append(cs,
+		combo{name: "StopLoss literal(0.25)", k: 1, needs: true,
+			build: func(s []strategy.Strategy) strategy.Strategy {
+				return &decorator.StopLossStrategy{InnertStrategy: s[0], Percentage: 0.25}
+			},
+			model: func(subs [][]strategy.Action, cl []float64) []strategy.Action {
+				return modelStopLoss(subs[0], cl, 0.25)
+			},
+			inv: func(out []strategy.Action, cl []float64) string { return stopLossInvariant(out, cl, 0.25) }},
+		combo{name: "StopLoss(0.5) then Percentage=0.25", k: 1, needs: true,
+			build: func(s []strategy.Strategy) strategy.Strategy {
+				d := decorator.NewStopLossStrategy(s[0], 0.5)
+				d.Percentage = 0.25
+				return d
+			},
+			model: func(subs [][]strategy.Action, cl []float64) []strategy.Action {
+				return modelStopLoss(subs[0], cl, 0.25)
+			},
+			inv: func(out []strategy.Action, cl []float64) string { return stopLossInvariant(out, cl, 0.25) }},
+		combo{name: "NoLoss literal", k: 1, needs: true,
+			build: func(s []strategy.Strategy) strategy.Strategy { return &decorator.NoLossStrategy{InnertStrategy: s[0]} },
+			model: func(subs [][]strategy.Action, cl []float64) []strategy.Action { return modelNoLoss(subs[0], cl) }, inv: noLossInvariant},
+		combo{name: "Inverse literal", k: 1,
+			build: func(s []strategy.Strategy) strategy.Strategy { return &decorator.InverseStrategy{InnerStrategy: s[0]} },
+			model: func(subs [][]strategy.Action, cl []float64) []strategy.Action { return modelInverse(subs[0]) }},
+		combo{name: "And literal/2", k: 2,
+			build: func(s []strategy.Strategy) strategy.Strategy { return &strategy.AndStrategy{Strategies: s} }, model: modelAnd},
+		combo{name: "Or literal/2", k: 2,
+			build: func(s []strategy.Strategy) strategy.Strategy { return &strategy.OrStrategy{Strategies: s} }, model: modelOr},
+		combo{name: "Majority literal/3", k: 3,
+			build: func(s []strategy.Strategy) strategy.Strategy { return &strategy.MajorityStrategy{Strategies: s} }, model: modelMajority},
+		combo{name: "Split literal", k: 2,
+			build: func(s []strategy.Strategy) strategy.Strategy {
+				return &strategy.SplitStrategy{BuyStrategy: s[0], SellStrategy: s[1]}
+			}, model: modelSplit},
+	)
 	// group strategies nested directly inside group strategies: the outer vote is over the inner group's STANDING recommendation
 	and2 := func(a, b strategy.Strategy) strategy.Strategy { return strategy.NewAndStrategy("and", a, b) }
 	or2 := func(a, b strategy.Strategy) strategy.Strategy { return strategy.NewOrStrategy("or", a, b) }
@@ -274,10 +312,14 @@ func combos() []combo {
 	cs = append(cs,
 		combo{name: "NoLoss(Inverse)", k: 1, needs: true, build: func(s []strategy.Strategy) strategy.Strategy {
 			return decorator.NewNoLossStrategy(decorator.NewInverseStrategy(s[0]))
-		}, model: func(subs [][]strategy.Action, cl []float64) []strategy.Action { return modelNoLoss(modelInverse(subs[0]), cl) }, inv: noLossInvariant},
+		}, model: func(subs [][]strategy.Action, cl []float64) []strategy.Action {
+			return modelNoLoss(modelInverse(subs[0]), cl)
+		}, inv: noLossInvariant},
 		combo{name: "Inverse(NoLoss)", k: 1, needs: true, build: func(s []strategy.Strategy) strategy.Strategy {
 			return decorator.NewInverseStrategy(decorator.NewNoLossStrategy(s[0]))
-		}, model: func(subs [][]strategy.Action, cl []float64) []strategy.Action { return modelInverse(modelNoLoss(subs[0], cl)) }},
+		}, model: func(subs [][]strategy.Action, cl []float64) []strategy.Action {
+			return modelInverse(modelNoLoss(subs[0], cl))
+		}},
 		combo{name: "StopLoss(0.25)(NoLoss)", k: 1, needs: true, build: func(s []strategy.Strategy) strategy.Strategy {
 			return decorator.NewStopLossStrategy(decorator.NewNoLossStrategy(s[0]), 0.25)
 		}, model: func(subs [][]strategy.Action, cl []float64) []strategy.Action {
@@ -434,8 +476,8 @@ func macdRsiUnit(c *core.Ctx, p [4]int, L int) {
 
 func init() {
 	core.Register(&core.Check{
-		ID:   "C07",
-		Rule: "combinators over scripted stub strategies: every tuple of action words over {Sell,Hold,Buy} (k=1: length<=7, k=2: <=5, k=3: <=3 quick / 4 thorough, k=4: <=2 / 3, k=5,6: 1 / 2) and, for the price-dependent decorators, every closing word over {1,2,4,3} of the same length (<=5), stop-loss percentages {0,0.25,0.5}, decorator nesting depth 2, group strategies nested in group strategies; each case is one execution of the real combinator under the controlled scheduler; oracle: documented position-wise combination / reference state machine, plus the No-Loss and Stop-Loss safety invariants evaluated on the whole history; MACD-RSI against its real sub-strategies run separately; states = cases, non-trivial = distinct emitted action words per unit",
+		ID:     "C07",
+		Rule:   "combinators over scripted stub strategies: every tuple of action words over {Sell,Hold,Buy} (k=1: length<=7, k=2: <=5, k=3: <=3 quick / 4 thorough, k=4: <=2 / 3, k=5,6: 1 / 2) and, for the price-dependent decorators, every closing word over {1,2,4,3} of the same length (<=5), stop-loss percentages {0,0.25,0.5}, decorator nesting depth 2, group strategies nested in group strategies; each case is one execution of the real combinator under the controlled scheduler; oracle: documented position-wise combination / reference state machine, plus the No-Loss and Stop-Loss safety invariants evaluated on the whole history; MACD-RSI against its real sub-strategies run separately; states = cases, non-trivial = distinct emitted action words per unit",
 		Assume: []string{"stub strategies emit exactly one scripted action per snapshot (equal lengths); closings positive", "percentage is a fraction as the code documents (closing*(1-Percentage))"},
 		Units: func(tier string) []core.Unit {
 			var us []core.Unit
